@@ -524,7 +524,7 @@ NativeReal_encode_xer(const asn_TYPE_descriptor_t *td, const void *sptr,
 
 	(void)ilevel;
 
-    er.encoded = REAL__dump(d, flags & XER_F_CANONICAL, cb, app_key);
+    er.encoded = REAL__dump(d, (flags & XER_F_CANONICAL) ? 1 : -1, cb, app_key);
     if(er.encoded < 0) ASN__ENCODE_FAILED;
 
 	ASN__ENCODED_OK(er);
